@@ -23,6 +23,8 @@
 #include <booster/log.h>
 #include "hmac_encryptor.h"
 #include "aes_encryptor.h"
+#include <openssl/evp.h>
+#include <openssl/hmac.h>
 #include <signal.h>
 #include <unistd.h>
 #include <map>
@@ -66,6 +68,10 @@ struct config {
 	std::unique_ptr<encryptor_factory> fac;
 	std::unique_ptr<session_cookies> sc,twin;  // twin: a second object made from the same key material
 	std::unique_ptr<encryptor> enc;
+	// what the DOCUMENTED key schedule yields, computed with libcrypto only (never through cppcms::crypto)
+	std::string ref_md,ref_mac_key,ref_cbc_key,secret;
+	bool derived;      // working keys derived from one secret (aes_factory(algo,key), key size != cbc+20)
+	bool extra;        // additional derived-key configuration: fewer payload lengths in the quick tier
 };
 static std::vector<config *> cfgs;
 
@@ -81,41 +87,141 @@ static size_t dsize(std::string const &md)
 	std::unique_ptr<crypto::message_digest> d(crypto::message_digest::create_by_name(md));
 	return d.get()? d->digest_size() : 0;
 }
-static void add(std::string const &name,bool aes,size_t mac,encryptor_factory *f)
+
+// ---- independent reference (OpenSSL): HMAC, AES-CBC, the cookie format, the key derivation -------------------
+static std::string ref_hmac(std::string const &md,std::string const &key,std::string const &msg)
 {
-	config *c=new config(); c->name=name; c->aes=aes; c->mac=mac; c->fac.reset(f);
+	EVP_MD const *m=EVP_get_digestbyname(md.c_str());
+	if(!m) { fprintf(stderr,"libcrypto: no digest %s\n",md.c_str()); exit(3); }
+	unsigned char out[EVP_MAX_MD_SIZE]; unsigned len=0;
+	static const unsigned char nokey[1]={0};
+	HMAC(m,key.empty()?(void const *)nokey:(void const *)key.data(),(int)key.size(),(unsigned char const *)msg.data(),msg.size(),out,&len);
+	return std::string((char *)out,len);
+}
+static std::string ref_cbc(bool enc,std::string const &key,std::string const &iv,std::string const &in)
+{
+	EVP_CIPHER const *c= key.size()==16 ? EVP_aes_128_cbc() : key.size()==24 ? EVP_aes_192_cbc() : EVP_aes_256_cbc();
+	EVP_CIPHER_CTX *x=EVP_CIPHER_CTX_new();
+	EVP_CipherInit_ex(x,c,0,(unsigned char const *)key.data(),(unsigned char const *)iv.data(),enc?1:0);
+	EVP_CIPHER_CTX_set_padding(x,0);
+	std::string out(in.size()+32,'\0'); int n1=0,n2=0;
+	EVP_CipherUpdate(x,(unsigned char *)&out[0],&n1,(unsigned char const *)in.data(),(int)in.size());
+	EVP_CipherFinal_ex(x,(unsigned char *)&out[n1],&n2);
+	EVP_CIPHER_CTX_free(x);
+	out.resize(n1+n2);
+	return out;
+}
+// cipher text of plain (= time_t || payload) under the given working keys, as the documented format has it:
+//   hmac-only:  plain || HMAC(plain)
+//   aes:        B0 || CBC(iv=B0; le32(len) || plain || zero pad) || HMAC(all blocks)      (B0 random)
+static std::string ref_seal(bool aes,std::string const &md,std::string const &mac_key,std::string const &cbc_key,std::string const &plain,vt::rng &R)
+{
+	std::string body;
+	if(!aes) body=plain;
+	else {
+		uint32_t n=plain.size();
+		std::string in((char *)&n,4); in+=plain; in.resize((in.size()+15)/16*16,'\0');
+		std::string b0(16,'\0'); for(int i=0;i<16;i++) b0[i]=(char)R(256);
+		body=b0+ref_cbc(true,cbc_key,b0,in);
+	}
+	return body+ref_hmac(md,mac_key,body);
+}
+static bool ref_open(config const &C,std::string const &cipher,std::string &payload,long &dl)
+{
+	if(cipher.size()<C.mac) return false;
+	std::string body=cipher.substr(0,cipher.size()-C.mac);
+	if(ref_hmac(C.ref_md,C.ref_mac_key,body)!=cipher.substr(cipher.size()-C.mac)) return false;
+	std::string plain;
+	if(!C.aes) plain=body;
+	else {
+		if(body.size()%16!=0 || body.size()<32) return false;
+		std::string p=ref_cbc(false,C.ref_cbc_key,body.substr(0,16),body.substr(16));
+		uint32_t n; memcpy(&n,p.data(),4);
+		if(n>p.size()-4) return false;
+		plain=p.substr(4,n);
+	}
+	if(plain.size()<sizeof(time_t)) return false;
+	time_t t; memcpy(&t,plain.data(),sizeof(t));
+	dl=(long)(t-vt::clock_base); payload=plain.substr(sizeof(t));
+	return true;
+}
+// aes_factory(algo,key): key of exactly cbc+20 bytes is split; otherwise k1 = HMAC(key,"0"), k2 = HMAC(key,"\1")
+// with SHA-256 (key <= 32 bytes) or SHA-512; cbc key = k1[0..cbc), mac key = k2[0..20), MAC = HMAC-SHA1
+static void ref_single_key(config &c,size_t cbc,std::string const &k)
+{
+	c.secret=k; c.ref_md="sha1";
+	if(k.size()==cbc+20) { c.ref_cbc_key=k.substr(0,cbc); c.ref_mac_key=k.substr(cbc); c.derived=false; }
+	else {
+		std::string md= k.size()*8<=256 ? "sha256" : "sha512";
+		c.ref_cbc_key=ref_hmac(md,k,"0").substr(0,cbc);
+		c.ref_mac_key=ref_hmac(md,k,std::string("\1",1)).substr(0,20);
+		c.derived=true;
+	}
+}
+
+static config *add(std::string const &name,bool aes,size_t mac,encryptor_factory *f)
+{
+	config *c=new config(); c->name=name; c->aes=aes; c->mac=mac; c->fac.reset(f); c->derived=false; c->extra=false;
 	c->sc.reset(new session_cookies(c->fac->get()));
 	c->twin.reset(new session_cookies(c->fac->get()));
 	c->enc=c->fac->get();
 	cfgs.push_back(c);
+	return c;
+}
+static void add_hmac(std::string const &name,std::string const &md,std::string const &k)
+{
+	config *c=add(name,false,dsize(md),new cppcms::sessions::impl::hmac_factory(md,mk(k)));
+	c->ref_md=md; c->ref_mac_key=k; c->secret=k;
+}
+static config *add_aes1(std::string const &name,std::string const &algo,size_t cbc,std::string const &k)
+{
+	config *c=add(name,true,20,new cppcms::sessions::impl::aes_factory(algo,mk(k)));
+	ref_single_key(*c,cbc,k);
+	return c;
+}
+static void add_aes2(std::string const &name,std::string const &algo,std::string const &ck,std::string const &md,std::string const &hk)
+{
+	config *c=add(name,true,dsize(md),new cppcms::sessions::impl::aes_factory(algo,mk(ck),md,mk(hk)));
+	c->ref_md=md; c->ref_mac_key=hk; c->ref_cbc_key=ck; c->secret=hk;
 }
 static void build_configs()
 {
-	using namespace cppcms::sessions::impl;
 	static const char *mds[]={"md5","sha1","sha224","sha256","sha384","sha512"};
 	static const size_t klen[]={16,20,32,24,48,100};
 	for(int i=0;i<6;i++) {
 		if(!dsize(mds[i])) continue;
-		add(std::string("hmac-")+mds[i],false,dsize(mds[i]),new hmac_factory(mds[i],mk(keybytes(klen[i],i))));
+		add_hmac(std::string("hmac-")+mds[i],mds[i],keybytes(klen[i],i));
 	}
 	// same algorithm, key differing in one bit / same key, other algorithm
-	{ std::string k=keybytes(20,1); k[7]^=0x10; add("hmac-sha1/key'",false,20,new hmac_factory("sha1",mk(k))); }
-	add("hmac-sha256/key-of-sha1",false,32,new hmac_factory("sha256",mk(keybytes(20,1))));
+	{ std::string k=keybytes(20,1); k[7]^=0x10; add_hmac("hmac-sha1/key'","sha1",k); }
+	add_hmac("hmac-sha256/key-of-sha1","sha256",keybytes(20,1));
 	static const char *aes[]={"aes128","aes192","aes256"};
 	static const size_t ks[]={16,24,32};
 	for(int i=0;i<3;i++) {
 		if(!crypto::cbc::create(aes[i]).get()) continue;
 		// single key of exactly cbc+sha1 size (split in two), single key derived through HMAC, explicit split keys
-		add(std::string(aes[i])+"/single-split",true,20,new aes_factory(aes[i],mk(keybytes(ks[i]+20,10+i))));
-		add(std::string(aes[i])+"/single-derived",true,20,new aes_factory(aes[i],mk(keybytes(ks[i]+(i==1?9:0),20+i))));
+		add_aes1(std::string(aes[i])+"/single-split",aes[i],ks[i],keybytes(ks[i]+20,10+i));
+		add_aes1(std::string(aes[i])+"/single-derived",aes[i],ks[i],keybytes(ks[i]+(i==1?9:0),20+i));
 		static const char *hm[]={"sha1","sha256","sha512"};
-		add(std::string(aes[i])+"/"+hm[i],true,dsize(hm[i]),new aes_factory(aes[i],mk(keybytes(ks[i],30+i)),hm[i],mk(keybytes(16+8*i,40+i))));
+		add_aes2(std::string(aes[i])+"/"+hm[i],aes[i],keybytes(ks[i],30+i),hm[i],keybytes(16+8*i,40+i));
 	}
 	if(crypto::cbc::create("aes128").get()) {
 		// same cbc key, other mac key; same mac key, other cbc key
-		add("aes128/sha1/mac'",true,20,new aes_factory("aes128",mk(keybytes(16,30)),"sha1",mk(keybytes(16,99))));
-		add("aes128/sha1/cbc'",true,20,new aes_factory("aes128",mk(keybytes(16,98)),"sha1",mk(keybytes(16,40))));
-		add("aes128/md5",true,16,new aes_factory("aes128",mk(keybytes(16,50)),"md5",mk(keybytes(16,51))));
+		add_aes2("aes128/sha1/mac'","aes128",keybytes(16,30),"sha1",keybytes(16,99));
+		add_aes2("aes128/sha1/cbc'","aes128",keybytes(16,98),"sha1",keybytes(16,40));
+		add_aes2("aes128/md5","aes128",keybytes(16,50),"md5",keybytes(16,51));
+		// the derived-keys path with the usual and with odd key lengths (SHA-256 up to 32 bytes, SHA-512 beyond);
+		// "aes" is aes128
+		struct { char const *algo; size_t cbc; size_t klen; } d[]={
+			{"aes",16,16},{"aes128",16,24},{"aes128",16,32},{"aes128",16,17},{"aes",16,37},{"aes128",16,64},
+			{"aes192",24,24},{"aes192",24,32},{"aes192",24,100},{"aes256",32,33},{"aes256",32,40},{"aes256",32,52+1}
+		};
+		for(size_t i=0;i<sizeof(d)/sizeof(d[0]);i++) {
+			if(!crypto::cbc::create(d[i].algo).get()) continue;
+			char nm[64]; snprintf(nm,sizeof(nm),"%s/derived-%zu",d[i].algo,d[i].klen);
+			config *c=add_aes1(nm,d[i].algo,d[i].cbc,keybytes(d[i].klen,60+i));
+			c->extra=true;
+		}
 	}
 }
 
@@ -159,7 +265,12 @@ static void log_cookie(vt::J &j,std::string const &ck,std::string const &ref=std
 	j.bytes("tx",tx);
 }
 
-static saved do_save(int c,std::string const &data,long dl)
+static std::string ref_json(int c,std::string const &cipher)
+{
+	std::string pl; long d=0; bool ok=ref_open(*cfgs[c],cipher,pl,d);
+	return vt::J().b("ok",ok).i("id",ok?pid(pl):0).i("dl",ok?d:0).str();
+}
+static saved do_save(int c,std::string const &data,long dl,bool with_ref=false)
 {
 	adapter ad;
 	session_interface si(*pool,ad);
@@ -167,8 +278,27 @@ static saved do_save(int c,std::string const &data,long dl)
 	saved s; s.cfg=c; s.id=pid(data); s.dl=dl; s.cookie=temp_cookie(si);
 	b64url::decode(s.cookie.substr(1),s.cipher);
 	bool leak = data.size()>=8 && s.cipher.find(data)!=std::string::npos;
-	vt::J j; j.s("e","Save").i("cfg",c).i("id",s.id).i("dl",dl).i("n",data.size()).b("leak",leak);
+	vt::J j; j.s("e","Save").i("cfg",c).i("id",s.id).i("dl",dl).i("n",data.size()).b("leak",leak).s("by","save");
+	if(with_ref) j.raw("ref",ref_json(c,s.cipher));
 	log_cookie(j,s.cookie);
+	tr.line(j.str());
+	exec_saves.push_back(s.cookie);
+	return s;
+}
+// a cookie made by the reference implementation from the same key material (another server of the same cluster)
+static saved do_save_ref(vt::rng &R,int c,std::string const &data,long dl)
+{
+	config &C=*cfgs[c];
+	time_t t=vt::clock_base+dl;
+	std::string plain((char *)&t,sizeof(t)); plain+=data;
+	saved s; s.cfg=c; s.id=pid(data); s.dl=dl;
+	s.cipher=ref_seal(C.aes,C.ref_md,C.ref_mac_key,C.ref_cbc_key,plain,R);
+	s.cookie="C"+b64url::encode(s.cipher);
+	bool leak = data.size()>=8 && C.aes && s.cipher.find(data)!=std::string::npos;
+	vt::J j; j.s("e","Save").i("cfg",c).i("id",s.id).i("dl",dl).i("n",data.size()).b("leak",leak).s("by","reference");
+	j.raw("ref",ref_json(c,s.cipher));
+	log_cookie(j,s.cookie);
+	j.bytes("cipher",s.cipher);
 	tr.line(j.str());
 	exec_saves.push_back(s.cookie);
 	return s;
@@ -210,6 +340,11 @@ static void do_load(int c,std::string const &ck,std::string const &ref,char cons
 	catch(std::exception const &e) { tr.line(vt::J().s("e","Died").s("what",e.what()).s("mut",mut).str()); tr.close(); exit(0); }
 	vt::J j; j.s("e","Load").i("cfg",c).b("ok",ok).i("id",ok?pid(data):0).i("dl",ok?(long)(to-vt::clock_base):0).b("cleared",ad.cleared);
 	j.i("h",first_diff(ck,ref)).s("mut",mut);
+	{	// verdict of the reference implementation under the reference working keys (crypto only, no expiry)
+		std::string ci,pl; long d; bool rv=false;
+		if(!ck.empty() && ck[0]=='C' && b64url::decode(ck.substr(1),ci)) rv=ref_open(*cfgs[c],ci,pl,d);
+		j.b("rv",rv);
+	}
 	log_cookie(j,ck,ref);
 	tr.line(j.str());
 	n_loads++; if(ok) n_ok++;
@@ -226,6 +361,7 @@ static void do_dec(int c,std::string const &cipher,std::string const &ref,char c
 	}
 	std::string ck="C"+b64url::encode(cipher);
 	vt::J j; j.s("e","Dec").i("cfg",c).b("ok",ok).i("id",id).i("dl",dl).i("h",first_diff(ck,ref)).s("mut",mut);
+	{ std::string pl; long d; j.b("rv",ref_open(*cfgs[c],cipher,pl,d)); }
 	log_cookie(j,ck,ref);
 	tr.line(j.str());
 	n_dec++;
@@ -244,6 +380,8 @@ static std::vector<size_t> positions(vt::rng &R,size_t n,size_t budget,std::vect
 	r.assign(s.begin(),s.end());
 	return r;
 }
+
+static void forgeries(vt::rng &R,int c,saved const &S1,std::string const &P1,bool big);
 
 static void execution(vt::rng &R,int c,size_t L,bool thorough)
 {
@@ -354,6 +492,7 @@ static void execution(vt::rng &R,int c,size_t L,bool thorough)
 		std::string m=ck+"="; do_load(c,m,ck,"pad"); m+="="; do_load(c,m,ck,"pad");
 		m=ck; m[0]='c'; do_load(c,m,ck,"first-char"); m[0]='I'; do_load(c,m,ck,"first-char");
 	}
+	forgeries(R,c,S1,P1,big);
 	// replay under every other configuration (and the cookies of the other one here)
 	for(size_t o=0;o<cfgs.size();o++) {
 		if((int)o==c) continue;
@@ -380,6 +519,92 @@ static void execution(vt::rng &R,int c,size_t L,bool thorough)
 	do_load(c,S2.cookie,S2.cookie,"expired"); do_load(c,S1.cookie,S1.cookie,"asis");
 	tr.line(vt::J().s("e","Tick").i("d",50).str()); set_now(201);
 	do_load(c,S1.cookie,S1.cookie,"expired"); do_load(c,S6.cookie,S6.cookie,"expired");
+}
+
+// ---- forgeries: modified / new cipher texts RE-SIGNED under keys an attacker can compute without the secret ----------
+struct fkey { std::string name,key; };
+static std::vector<fkey> forger_keys(int c)
+{
+	config &C=*cfgs[c];
+	std::vector<fkey> r;
+	fkey k;
+	k.name="empty"; k.key=""; r.push_back(k);
+	k.name="zero"; k.key=std::string(C.ref_mac_key.size(),'\0'); r.push_back(k);
+	k.name="hmac-sha256(empty,01)"; k.key=ref_hmac("sha256","",std::string("\1",1)).substr(0,20); r.push_back(k);
+	k.name="hmac-sha512(empty,01)"; k.key=ref_hmac("sha512","",std::string("\1",1)).substr(0,20); r.push_back(k);
+	k.name="hmac-sha256(empty,0)"; k.key=ref_hmac("sha256","","0").substr(0,20); r.push_back(k);
+	k.name="hmac-sha256(zero,01)"; k.key=ref_hmac("sha256",std::string(C.secret.size(),'\0'),std::string("\1",1)).substr(0,20); r.push_back(k);
+	if(C.aes) { k.name="cbc-key-as-mac-key"; k.key=C.ref_cbc_key; r.push_back(k); }
+	if(C.derived) {
+		k.name="raw-secret"; k.key=C.secret; r.push_back(k);
+		k.name="hmac(secret,0)"; k.key=ref_hmac(C.secret.size()*8<=256?"sha256":"sha512",C.secret,"0").substr(0,20); r.push_back(k);
+		std::string o=C.secret; o[o.size()/2]^=0x04;
+		k.name="derived-from-other-secret"; k.key=ref_hmac(o.size()*8<=256?"sha256":"sha512",o,std::string("\1",1)).substr(0,20); r.push_back(k);
+	}
+	else { std::string o=C.ref_mac_key; o[o.size()/2]^=0x04; k.name="other-secret"; k.key=o; r.push_back(k); }
+	for(size_t o=0;o<cfgs.size();o++) if((int)o!=c && cfgs[o]->ref_mac_key!=C.ref_mac_key) { k.name="key-of-"+cfgs[o]->name; k.key=cfgs[o]->ref_mac_key; r.push_back(k); if(r.size()>=14) break; }
+	return r;
+}
+static void forgeries(vt::rng &R,int c,saved const &S1,std::string const &P1,bool big)
+{
+	config &C=*cfgs[c];
+	std::vector<fkey> keys=forger_keys(c);
+	size_t cl=S1.cipher.size();
+	std::string body=S1.cipher.substr(0,cl-C.mac);
+	time_t far=vt::clock_base+100000;
+	std::string fplain((char *)&far,sizeof(far)); fplain+="FORGED:"+P1.substr(0,std::min<size_t>(P1.size(),40));
+	for(size_t k=0;k<keys.size();k++) {
+		if(big && k>=5) break;
+		std::vector<std::pair<std::string,std::string> > f;      // (kind, cipher)
+		std::string const &mk_=keys[k].key;
+		f.push_back(std::make_pair("resign-unmodified",body+ref_hmac(C.ref_md,mk_,body)));
+		{ std::string b=body; b[b.size()-1]^=0x01; f.push_back(std::make_pair("resign-bitflip-last",b+ref_hmac(C.ref_md,mk_,b))); }
+		{ std::string b=body; b[C.aes?17:2]^=0x80; f.push_back(std::make_pair("resign-bitflip-first",b+ref_hmac(C.ref_md,mk_,b))); }
+		if(C.aes) {
+			if(body.size()>=48) { std::string b=body.substr(0,body.size()-16); f.push_back(std::make_pair("resign-truncated-block",b+ref_hmac(C.ref_md,mk_,b))); }
+			if(body.size()>=64) { std::string b=body; for(int i=0;i<16;i++) std::swap(b[16+i],b[32+i]); f.push_back(std::make_pair("resign-swapped-blocks",b+ref_hmac(C.ref_md,mk_,b))); }
+			// a whole new cookie: encrypted under a key the forger picks, or (insider of the CBC key only) the real CBC key
+			f.push_back(std::make_pair("new-cookie-zero-cbc",ref_seal(true,C.ref_md,mk_,std::string(C.ref_cbc_key.size(),'\0'),fplain,R)));
+			f.push_back(std::make_pair("new-cookie-real-cbc",ref_seal(true,C.ref_md,mk_,C.ref_cbc_key,fplain,R)));
+		}
+		else {
+			std::string b=body; if(b.size()>=8) b[3]^=0x40;       // deadline pushed into the future
+			f.push_back(std::make_pair("resign-later-deadline",b+ref_hmac(C.ref_md,mk_,b)));
+			f.push_back(std::make_pair("new-cookie",ref_seal(false,C.ref_md,mk_,"",fplain,R)));
+			// right key, other digest
+			static const char *omd[]={"md5","sha1","sha256","sha512"};
+			for(int q=0;q<4;q++) if(C.ref_md!=omd[q] && k==0) f.push_back(std::make_pair(std::string("real-key-")+omd[q],ref_seal(false,omd[q],C.ref_mac_key,"",fplain,R)));
+		}
+		for(size_t q=0;q<f.size();q++) {
+			std::string mut="forge:"+keys[k].name+":"+f[q].first;
+			do_load(c,"C"+b64url::encode(f[q].second),S1.cookie,mut.c_str());
+			do_dec(c,f[q].second,S1.cookie,mut.c_str());
+		}
+	}
+}
+
+// ---- key schedule: what save() emits verifies under the reference working keys, and what the reference
+//      implementation seals with them loads in the real code (both directions => the real working keys are the documented ones)
+static void keyschedule(vt::rng &R,int c)
+{
+	config &C=*cfgs[c];
+	payload_ids.clear(); exec_saves.clear();
+	std::string P1=payload(R,16,1),P2=payload(R,33,1);
+	payload_ids[P1]=1; payload_ids[P2]=2;
+	set_now(100);
+	{
+		std::vector<int> aes; for(size_t i=0;i<cfgs.size();i++) if(cfgs[i]->aes) aes.push_back(i);
+		tr.line(vt::J().s("e","Reset").i("now",100).a("aes",aes).s("cfg",C.name).s("len","keyschedule").str());
+	}
+	saved A=do_save(c,P1,200,true);
+	saved B=do_save_ref(R,c,P2,180);
+	saved D=do_save(c,P2,150,true);
+	saved E=do_save_ref(R,c,P1,100);
+	do_load(c,A.cookie,A.cookie,"asis"); do_load(c,B.cookie,B.cookie,"asis-reference-sealed");
+	do_load(c,D.cookie,D.cookie,"asis"); do_load(c,E.cookie,E.cookie,"asis-reference-sealed");
+	do_load(c,B.cookie,B.cookie,"asis-reference-sealed",true);
+	do_dec(c,A.cipher,A.cookie,"asis"); do_dec(c,B.cipher,B.cookie,"asis-reference-sealed");
+	forgeries(R,c,B,P2,false);
 }
 
 static void refusals()
@@ -446,9 +671,15 @@ int main(int argc,char **argv)
 	if(thorough) { lens.push_back(7); lens.push_back(8); lens.push_back(31); lens.push_back(32); lens.push_back(65536); }
 	// cost-balanced assignment of (configuration, length) jobs to shards
 	std::vector<std::pair<double,std::pair<size_t,size_t> > > jobs;
-	for(size_t c=0;c<cfgs.size();c++) for(size_t k=0;k<lens.size();k++) {
-		double cost= lens[k]>5000 ? 12 : lens[k]>64 ? (thorough? 40 : 1.5) : 1;
-		jobs.push_back(std::make_pair(-cost,std::make_pair(c,k)));
+	static const size_t KEYSCHED=(size_t)-1;
+	for(size_t c=0;c<cfgs.size();c++) {
+		jobs.push_back(std::make_pair(-0.2,std::make_pair(c,KEYSCHED)));
+		for(size_t k=0;k<lens.size();k++) {
+			// the additional derived-key configurations: two payload lengths in the quick tier
+			if(!thorough && cfgs[c]->extra && lens[k]!=1 && lens[k]!=16) continue;
+			double cost= lens[k]>5000 ? 12 : lens[k]>64 ? (thorough? 40 : 1.5) : 1;
+			jobs.push_back(std::make_pair(-cost,std::make_pair(c,k)));
+		}
 	}
 	std::stable_sort(jobs.begin(),jobs.end());
 	std::vector<double> load(nsh,0);
@@ -457,8 +688,8 @@ int main(int argc,char **argv)
 		load[best]+=-jobs[j].first;
 		if(best!=shard) continue;
 		size_t c=jobs[j].second.first,k=jobs[j].second.second;
-		vt::rng R(vt::envl("VERIF_SEED",1)*2750159u+(c*64+k)*13+1);
-		execution(R,c,lens[k],thorough);
+		vt::rng R(vt::envl("VERIF_SEED",1)*2750159u+(c*64+(k==KEYSCHED?63:k))*13+1);
+		if(k==KEYSCHED) keyschedule(R,c); else execution(R,c,lens[k],thorough);
 	}
 	if(shard==0) refusals();
 	printf("cfgs=%zu loads=%ld accepted=%ld decs=%ld\n",cfgs.size(),n_loads,n_ok,n_dec);
